@@ -90,6 +90,24 @@ where
     }
 }
 
+#[cfg(gluon_verif)]
+impl<T> Receiver<T> {
+    /// Looks at the queued values (oldest first) without rooting or copying them
+    pub fn verif_with_queue(&self, mut f: impl FnMut(Variants)) {
+        for value in self.queue.lock().unwrap().iter() {
+            f(Variants::new(value))
+        }
+    }
+}
+
+#[cfg(gluon_verif)]
+impl<T> Sender<T> {
+    /// Address of the thread into whose heap sent values are copied
+    pub fn verif_owner(&self) -> usize {
+        self.thread.verif_addr()
+    }
+}
+
 impl<T> Receiver<T> {
     fn try_recv(&self) -> Result<Value, ()> {
         self.queue.lock().unwrap().pop_front().ok_or(())
